@@ -22,6 +22,9 @@ what={
 "string.newline":"a string literal containing a newline is re-indented by the pretty printer: the literal gains spaces",
 "string.rawnewline":"a raw string literal containing a newline is re-indented by the pretty printer: the literal gains spaces",
 "type-assert.2value":"v, ok := x.(uint64) is emitted as let: (v, ok) := x and the call site as uint64__to__interface{} #7 (not even well-formed)",
+"interface.extra-params":"f(x I, n uint64) called with a struct: the conversion definition is named after the LAST parameter's type (S__to__uint64, struct.mk uint64 [...]) while the call site uses S__to__I, which is never defined (the authors list this shape as failing in semantics/interfaces_failing.go)",
+"interface.second-param":"f(n uint64, x I) called as f(2, S{...}): the conversion is applied to the FIRST argument (uint64__to__I #2), the struct is passed bare",
+"interface.pointer-impl":"an interface implemented with pointer receivers: f(p) emits S__to__I \"p\" but no definition of S__to__I (the scan only recognises struct-typed arguments)",
 "variadic":"a variadic function is called with its arguments passed positionally instead of as a slice (stuck)",
 }
 src=open('/verif/harness/goosegen/catalogue.go').read()
